@@ -248,8 +248,12 @@ impl Generator {
             Ext4 => {
                 // ext4: 4-byte signed integer, must be > 0
                 // use u32 and ensure it's positive
-                let code = source.gen_u32().saturating_add(1);
-                debug_assert!(code > 0, "EXT4 code must be > 0, got {}", code);
+                let code = (source.gen_u32() >> 1).max(1);
+                debug_assert!(
+                    code > 0 && code <= i32::MAX as u32,
+                    "EXT4 code must be a positive int4, got {}",
+                    code
+                );
                 self.output.push(Ext4.as_u8());
                 self.output.extend_from_slice(&code.to_le_bytes());
                 self.process_stack_ops(Ext4, Some(&code.to_le_bytes()));
